@@ -414,7 +414,9 @@ type c13Env struct {
 }
 
 func c13NewEnv(t *testing.T) *c13Env {
-	opts := DatabaseContextOptions{Scopes: GetScopesOptionsDefaultCollectionOnly(t)}
+	co := DefaultCacheOptions()
+	opts := DatabaseContextOptions{Scopes: GetScopesOptionsDefaultCollectionOnly(t), CacheOptions: &co,
+		ClientPartitionWindow: base.DefaultClientPartitionWindow} // production default (rest config): grant history is kept for 30 days
 	db, ctx := SetupTestDBWithOptions(t, opts)
 	db.DatabaseContext.AllowEmptyPassword = true
 	col, cctx := GetSingleDatabaseCollectionWithUser(ctx, t, db)
@@ -753,6 +755,9 @@ func (e *c13Env) request(usr auth.User, since SequenceID, limit int) ([]c13Row, 
 		return rows, nil
 	}
 	for ce := range feed {
+		if os.Getenv("C13_DEBUG") != "" {
+			fmt.Printf("C13DBG entry %v\n", ce)
+		}
 		if ce == nil {
 			continue
 		}
@@ -822,6 +827,7 @@ func c13Run(t *testing.T, ops []c13Op, emit bool) *c13Result {
 			fail(-1, "operation_succeeds", "op-error:create-user", err.Error())
 			return res
 		}
+		e.db.WaitForPendingChanges(t)
 	}
 	client := c13Client{}
 	since := SequenceID{}
@@ -847,9 +853,12 @@ func c13Run(t *testing.T, ops []c13Op, emit bool) *c13Result {
 					}
 				}
 				tr.apply(op, "")
+				e.db.WaitForPendingChanges(t)
 				continue
 			}
 			rev, err := e.do(tr, op)
+			// every sequence reaches the channel caches before the next operation: no skipped sequences (assumption)
+			e.db.WaitForPendingChanges(t)
 			if err != nil {
 				fail(i, "operation_succeeds", "op-error:"+op.Kind, fmt.Sprintf("op %d %s: %v", i, op, err))
 				continue
@@ -1291,7 +1300,11 @@ func TestVerifC13(t *testing.T) {
 	rec := vNewRecorder(t, "C13", "C13.C13_Corr")
 	defer rec.Finish()
 	rnd := vNewRand(vSeed())
-	base.SetUpTestLogging(t, base.LevelError, base.KeyNone)
+	if os.Getenv("C13_DEBUG") != "" {
+		base.SetUpTestLogging(t, base.LevelInfo, base.KeyChanges)
+	} else {
+		base.SetUpTestLogging(t, base.LevelError, base.KeyNone)
+	}
 	reported := map[string]bool{}
 
 	history := func(stream, kind string, ops []c13Op) {
